@@ -34,9 +34,13 @@ def cost(tier, seed, info):
     out = {'failures': [], 'known_hits': [], 'evaluations': 0, 'distinct_nontrivial': 0, 'summary': {'work': {}, 'time': {}}}
     suspects = []
     # (1) deterministic work units of the cost model, measured on the real code
+    from concurrent.futures import ThreadPoolExecutor
+    with ThreadPoolExecutor(max_workers=8) as ex:          # work units are counted, not timed: parallel runs do not disturb them
+        work_runs = dict(zip([(f, n) for f in fams for n in (256, 1024)],
+                             ex.map(lambda fn: _run('cost_probe.py', [fn[0], fn[1], 'work']), [(f, n) for f in fams for n in (256, 1024)])))
     for f in fams:
-        a = _run('cost_probe.py', [f, 256, 'work'])
-        b = _run('cost_probe.py', [f, 1024, 'work'])
+        a = work_runs[(f, 256)]
+        b = work_runs[(f, 1024)]
         out['evaluations'] += 2
         if 'error' in a or 'error' in b:
             out['failures'].append(Failure({'family': f, 'n': 1024, 'mode': 'work'}, 'probe-crash', 'cost probe crashed on %s: %s' % (f, a.get('error') or b.get('error'))))
@@ -57,7 +61,7 @@ def cost(tier, seed, info):
         if b['result'].startswith('esc'):
             out['failures'].append(Failure({'family': f, 'n': 1024, 'mode': 'work'}, 'escape', 'family %s: %s' % (f, b['result'])))
     # (2) CPU time: modest sizes in the quick tier, large in the thorough tier / for suspects
-    sizes = (1 << 10, 1 << 12, 1 << 14, 1 << 16, 1 << 18) if tier == 'quick' else (1 << 12, 1 << 14, 1 << 16, 1 << 18, 1 << 20)
+    sizes = (1 << 12, 1 << 14, 1 << 16, 1 << 18) if tier == 'quick' else (1 << 12, 1 << 14, 1 << 16, 1 << 18, 1 << 20)
     def timed(f, szs, reps=3, mode='time'):
         """ascending sizes; stops as soon as one run needs more than 3 s of CPU (a super-linear family shows long
         before the large sizes; a linear one reaches them cheaply)"""
@@ -160,7 +164,12 @@ def buffers(tier, seed, info):
 
 def buffers_replay(p):
     if not p.get('steps'):
-        return None
+        # a fixed history of the probe (retention histories): they are deterministic, run them again
+        r = _run('buffer_probe.py', [0, 0], timeout=3000)
+        if 'error' in r:
+            return 'probe crashed: ' + r['error']
+        hits = [f for f in r['failures'] if f.get('sig') == p.get('sig')] or r['failures']
+        return hits[0]['text'] if hits else None
     r = _run('buffer_probe.py', [0, 0, json.dumps(p['steps'])])
     if 'error' in r:
         return 'probe crashed: ' + r['error']
